@@ -238,6 +238,13 @@ def srunA : List (List Nat × SOp) → SSt → List (SRes × SSt) × SSt
     let (rs, st'') := srunA ops st'
     ((r, st') :: rs, st'')
 
+/-- `NetstringSocket.write_ns(payload)` over a send loop with the given offers -/
+def writeNsA (offers : List Nat) (maxsize : Nat) (payload : Bytes) (st : SSt) : NsWRes × SSt :=
+  if payload.length > maxsize then (.nsTooLong, st)
+  else match sendA offers (encodeNs payload) st with
+    | (.timeout, st') => (.timeout, st')
+    | (_, st') => (.ok, st')
+
 /-- a send-side call on the object, offers observed -/
 def dsopA (offers : List Nat) (o : SOp) (b : BSock) : DOut × BSock :=
   if (sstepA offers o b.tx).1 = .timeout then
